@@ -56,45 +56,82 @@ Section EvalProps.
     lookup x (update y (VArr elt l') (declare y (VArr elt l) e)) = Some (VArr elt l).
   Proof. intros N H. rewrite lookup_update_other, lookup_declare_other; auto. Qed.
 
-  (* A call evaluates its arguments in the caller's environment, runs the body in an environment
-     holding the bound parameters only, and returns with exactly the caller's environment. *)
-  Theorem call_isolated n s f args v s' :
-    eval O fns (S n) s (ECall f args) = Ok (v, s') ->
-    exists fd vs s1 sc c s2,
-      fns f = Some fd /\
-      eval_list (eval O fns n) s args = Ok (vs, s1) /\
-      bind_params (fn_params fd) vs = Some sc /\
-      exec_list (exec O fns n) (mkSt [sc] (s_out s1)) (fn_body fd) = Ok (c, s2) /\
-      s_env s' = s_env s1 /\ s_out s' = s_out s2.
-  Proof.
-    rewrite eval_S. unfold eval_step. destruct (fns f) as [fd|]; [|discriminate].
-    destruct (eval_list (eval O fns n) s args) as [[vs s1]| |] eqn:E; cbn [bind]; try discriminate.
-    destruct (bind_params (fn_params fd) vs) as [sc|] eqn:B; [|discriminate].
-    destruct (exec_list (exec O fns n) (mkSt [sc] (s_out s1)) (fn_body fd)) as [[c s2]| |] eqn:X; cbn [bind]; try discriminate.
-    intro H. exists fd, vs, s1, sc, c, s2. repeat split; auto; destruct c; inversion H; reflexivity.
-  Qed.
+  Variable cls : string -> option cdecl.
+  Variable depth : nat.
 
-  (* ... so the body's behaviour is a function of the arguments and the output so far: two callers
-     with different locals get the same result *)
-  Theorem callee_cannot_see_caller n f args v1 s1' sA sB :
-    (forall a, In a args -> exists l, a = ELit l) ->
-    s_out sA = s_out sB ->
-    eval O fns (S n) sA (ECall f args) = Ok (v1, s1') ->
-    exists s2', eval O fns (S n) sB (ECall f args) = Ok (v1, s2') /\ s_out s2' = s_out s1' /\ s_env s2' = s_env sB.
+  (* releasing objects never touches the running frame: environment, parked callers, pending operands, class context *)
+  Definition same_frame (s s' : st (F:=F)) : Prop :=
+    s_env s' = s_env s /\ s_frames s' = s_frames s /\ s_temps s' = s_temps s /\ s_ctx s' = s_ctx s.
+  Lemma same_frame_refl s : same_frame s s.
+  Proof. repeat split. Qed.
+  Lemma same_frame_trans a b c : same_frame a b -> same_frame b c -> same_frame a c.
+  Proof. unfold same_frame. intros [A1 [A2 [A3 A4]]] [B1 [B2 [B3 B4]]]. repeat split; congruence. Qed.
+  Lemma same_frame_set_obj s l o : same_frame s (set_obj s l o).
+  Proof. repeat split. Qed.
+  Lemma same_frame_leave s x : same_frame s (leave s x).
+  Proof. repeat split. Qed.
+
+  Section WithEx.
+    Variable ex : st (F:=F) -> stmt -> res (ctl (F:=F) * st (F:=F)).
+
+    Lemma run_dtors_frame ch l s s' : run_dtors ex ch l s = Ok s' -> same_frame s s'.
+    Proof.
+      revert s s'. induction ch as [|cd r IH]; cbn [run_dtors]; intros s s' H.
+      - inversion H. apply same_frame_refl.
+      - destruct (cd_dtor cd) as [body|]; cbn [bind] in H.
+        + destruct (exec_list ex _ _ body) as [[c x]| |]; cbn [bind] in H; try discriminate.
+          apply IH in H. eapply same_frame_trans; [apply same_frame_leave | exact H].
+        + now apply IH in H.
+    Qed.
+
+    Lemma destroy_obj_frame l s s' : destroy_obj cls depth ex l s = Ok s' -> same_frame s s'.
+    Proof.
+      unfold destroy_obj. destruct (get_obj s l) as [o|]; [|intro H; inversion H; apply same_frame_refl].
+      destruct (o_dead o); [intro H; inversion H; apply same_frame_refl|].
+      destruct (run_dtors ex _ l _) as [s1| |] eqn:R; cbn [bind]; try discriminate.
+      apply run_dtors_frame in R. intro H.
+      assert (same_frame s s1) as S1 by (eapply same_frame_trans; [apply same_frame_set_obj | exact R]).
+      destruct (get_obj s1 l); inversion H; subst; exact S1.
+    Qed.
+
+    Lemma sweep_frame k extra s s' : sweep cls depth ex k extra s = Ok s' -> same_frame s s'.
+    Proof.
+      revert s s'. induction k as [|k IH]; cbn [sweep]; intros s s' H.
+      - inversion H. apply same_frame_refl.
+      - destruct (unreferenced s extra) as [|l others]; [inversion H; apply same_frame_refl|].
+        match type of H with (if ?c then _ else _) = _ => destruct c end; [discriminate|].
+        match type of H with bind (destroy_obj _ _ _ ?x _) _ = _ => destruct (destroy_obj cls depth ex x s) as [s1| |] eqn:D end;
+          cbn [bind] in H; try discriminate.
+        apply IH in H. apply destroy_obj_frame in D. eapply same_frame_trans; eauto.
+    Qed.
+
+    Lemma sweep_all_frame extra s s' : sweep_all cls depth ex extra s = Ok s' -> same_frame s s'.
+    Proof. apply sweep_frame. Qed.
+  End WithEx.
+
+  (* A call of a top-level function evaluates its arguments in the caller's environment, runs the
+     body in a frame holding the bound parameters only ([enter] parks the caller's environment where
+     names are never looked up), and returns with exactly the caller's environment. *)
+  Theorem call_isolated n s f fd args v s' :
+    fns f = Some fd ->
+    eval O fns cls depth (S n) s (ECall f args) = Ok (v, s') ->
+    exists vs s1 sc c s2,
+      evals (eval O fns cls depth n) s args = Ok (vs, s1) /\
+      bind_params (fn_params fd) vs = Some sc /\
+      execs cls depth (exec O fns cls depth n) (enter (with_temps s1 (vs ++ s_temps s1)) sc EmptyString) (fn_body fd) = Ok (c, s2) /\
+      s_env (enter (with_temps s1 (vs ++ s_temps s1)) sc EmptyString) = [sc] /\
+      s_env s' = s_env s1 /\ s_ctx s' = s_ctx s1.
   Proof.
-    intros Hlit Hout.
-    assert (forall m s, eval_list (eval O fns (S m)) s args = Ok (map (fun a => match a with ELit l => lit_eval O l | _ => VVoid end) args, s)) as EL.
-    { intros m s0. induction args as [|a r IH]; cbn [eval_list map]; auto.
-      destruct (Hlit a (or_introl eq_refl)) as [l ->]. rewrite eval_S. cbn [eval_step bind]. rewrite IH; auto.
-      intros a' Ha'. apply Hlit. now right. }
-    destruct n as [|m].
-    - rewrite !eval_S. unfold eval_step. destruct (fns f); [|discriminate]. destruct args; cbn [eval_list bind]; [|cbn [eval]; discriminate].
-      destruct (bind_params _ _); [|discriminate]. destruct (fn_body f0); cbn [exec_list bind].
-      + intro H; inversion H; subst. eexists. split; [reflexivity|]. cbn. auto.
-      + cbn [exec]. discriminate.
-    - rewrite !eval_S. unfold eval_step. destruct (fns f) as [fd|]; [|discriminate]. rewrite !EL. cbn [bind].
-      destruct (bind_params _ _) as [sc|]; [|discriminate]. rewrite Hout.
-      destruct (exec_list _ _ _) as [[c s2]| |]; cbn [bind]; try discriminate.
-      intro H. destruct c; inversion H; subst; eexists; (split; [reflexivity|]); cbn; auto.
+    intros Hf. rewrite eval_S. unfold eval_step. rewrite Hf.
+    destruct (evals (eval O fns cls depth n) s args) as [[vs s1]| |] eqn:E; cbn [bind]; try discriminate.
+    destruct (bind_params (fn_params fd) vs) as [sc|] eqn:B; [|discriminate].
+    unfold call_body.
+    destruct (execs cls depth (exec O fns cls depth n) _ (fn_body fd)) as [[c s2]| |] eqn:X; cbn [bind]; try discriminate.
+    destruct (sweep_all _ _ _ _ _) as [s3| |] eqn:W; cbn [bind]; try discriminate.
+    intro H. inversion H; subst. exists vs, s1, sc, c, s2.
+    split; [reflexivity|]. split; [exact B|]. split; [exact X|]. split; [reflexivity|].
+    apply sweep_all_frame in W. destruct W as [W1 [_ [_ W4]]]. split.
+    - rewrite W1. reflexivity.
+    - rewrite W4. reflexivity.
   Qed.
 End EvalProps.
